@@ -235,7 +235,7 @@ class Shapes(SubCheck):
             return
         out.nontrivial.append((kind, prm, tags["m"]))
         # (a) untransformed segments are the SVG 2 equivalent path
-        pc.compare_path(un, rsegs, out, "%s%r.segments(transformed=False)" % (kind, prm), tags=dict(kind2="equiv", **tags))
+        pc.compare_path(un, rsegs, out, "%s%r.segments(transformed=False)" % (kind, prm), tags=dict(kind2="equiv", **tags), rel=1e-9)
         if out.disc:
             return
         # transformed segments are the matrix image of it
